@@ -144,6 +144,14 @@ pub fn assemble(file: &[u8], ops: &[Op], flags: u8) -> Result<Assembled, String>
                             }
                             let (adam, pass, l, w) = parse_ii(&ii);
                             touched = true;
+                            // a row handed out by the Reader-owned buffer is exactly one scanline of the (reduced) image: not longer
+                            if *op == Op::NextRow {
+                                let want = if adam { r.output_line_size(w) } else { line };
+                                if data.len() != want {
+                                    out.problems.push(format!("next_interlaced_row returned {} bytes for a scanline of {} pixels ({} bytes)", data.len(), if adam { w } else { sw }, want));
+                                    break;
+                                }
+                            }
                             if adam {
                                 let n = r.output_line_size(w);
                                 png::expand_interlaced_row(&mut canvas, line, &data[..n.min(data.len())], &png::Adam7Info::new(pass, l, w), bits);
@@ -222,7 +230,16 @@ pub fn small_valid_files(rng: &mut Rng, n: usize) -> Vec<corpus::TestFile> {
                 corpus::TestFile { bytes: serialize(&cs), source: "still-adam7".into(), model_domain: true }
             }
             _ => {
-                let a = random_anim(&mut r, 6, 3);
+                let mut a = random_anim(&mut r, 6, 3);
+                if i % 8 == 7 {
+                    // every second animation: Adam7 with a frame narrower than the canvas (sub-frame stride vs canvas stride)
+                    for _ in 0..200 {
+                        if a.interlace && a.w >= 3 && a.frames.iter().any(|f| f.img.w < a.w && f.img.w >= 2 && f.img.h >= 2) {
+                            break;
+                        }
+                        a = random_anim(&mut r, 7, 3);
+                    }
+                }
                 let (cs, _) = anim_chunks(&a, &mut r);
                 let src = format!("apng{}{}", if a.interlace { "-adam7" } else { "" }, if a.default_image.is_some() { "-sepdefault" } else { "" });
                 corpus::TestFile { bytes: serialize(&cs), source: src, model_domain: true }
@@ -377,6 +394,36 @@ pub fn run_c13(ctx: &mut Ctx) {
         }
     }
     ctx.rep.exhaustive.push(format!("all operation sequences of length <= {} over 4 calls per file", max_len));
+    // images whose last rows come out of the inflater only when the data sequence is finished (whole-file delivery): part of
+    // the frame by row calls, the rest by next_frame (defect D23, repaired by 429476f)
+    let cfg = Config::default();
+    for (file, h) in crate::props::c04::flush_carrying_files(&mut rng) {
+        let refs = match reference_frames(&file, 0) { Ok(r) => r, Err(_) => continue };
+        for k in 1..=3u32 {
+            for last in [Op::NextFrame(0), Op::NextFrame(7)] {
+                let mut ops: Vec<Op> = (0..h.saturating_sub(k)).map(|i| if i % 7 == 3 { Op::ReadRow } else { Op::NextRow }).collect();
+                ops.push(last);
+                ctx.rep.eval(true, fnv64(&file) ^ k as u64);
+                ctx.rep.count("file kind", "flush-carrying");
+                match assemble(&file, &ops, 0) {
+                    Err(p) => ctx.rep.violation("oracle", "panic", &format!("panic during rows x {} + next_frame: {}", h - k, p), case(&file, file.len(), &with_ri(&ops), &cfg)),
+                    Ok(a) => {
+                        for p in &a.problems {
+                            ctx.rep.violation("oracle", "path-problem", &format!("{} rows by row calls, then next_frame ({} rows left): {}", h - k, k, p), case(&file, file.len(), &with_ri(&ops), &cfg));
+                        }
+                        for (fk, px) in &a.frames {
+                            if refs.get(*fk).map(|rf| &rf.pixels != px).unwrap_or(true) {
+                                ctx.rep.violation("oracle", "frame-differs/flush-carrying", &format!("{} rows by row calls, then next_frame: frame {} differs from the whole-frame decode", h - k, fk), case(&file, file.len(), &with_ri(&ops), &cfg));
+                            }
+                        }
+                        if a.frames.is_empty() {
+                            ctx.rep.violation("oracle", "path-problem", &format!("{} rows by row calls, then next_frame: no frame was completed", h - k), case(&file, file.len(), &with_ri(&ops), &cfg));
+                        }
+                    }
+                }
+            }
+        }
+    }
 }
 
 fn with_ri(ops: &[Op]) -> Vec<Op> {
@@ -703,6 +750,33 @@ pub fn run_c18(ctx: &mut Ctx) {
         files.push(corpus::TestFile { bytes, source: "fail-limits-later-frame".into(), model_domain: MODEL_FOLLOWS_REFUSED_FRAME_REPAIR });
         cfgs.push(Config { limit: Some(limit), flags, ..Config::default() });
     }
+    // files whose rows fail when the row TRANSFORMATION is created or applied (a Reader-level format error raised after the row
+    // was fetched): an indexed image without PLTE under EXPAND / ALPHA; stills of 1..3 rows and animations, both interlace
+    // methods.  Retrying the failed call must keep failing: it may never come back as a frame nobody decoded (seeded C18_5)
+    for k in 0..ctx.n(8, 24) {
+        let mut r = rng.fork(8800 + k as u64);
+        let depth = *r.pick(&[1u8, 2, 4, 8]);
+        let (w, h) = (r.range(1, 9) as u32, [1u32, 1, 2, 3][k % 4]);
+        let interlace = k % 3 == 2;
+        let img = Img::random(&mut r, 3, depth, w, h);
+        let (raw, _) = scanlines(&img, interlace, &Filters::Random, &mut r);
+        let z = zlib_stream(&raw, &Deflater::Level(6));
+        let mut cs = vec![ihdr(w, h, depth, 3, interlace as u8)];
+        if k % 2 == 1 {
+            cs.push(actl(2, 0));
+            cs.push(Fctl { seq: 0, w, h, x: 0, y: 0, delay_num: 1, delay_den: 1, dispose: 0, blend: 0 }.chunk());
+            cs.push(RawChunk::new(b"IDAT", z.clone()));
+            cs.push(Fctl { seq: 1, w, h, x: 0, y: 0, delay_num: 1, delay_den: 1, dispose: 0, blend: 0 }.chunk());
+            let mut d = 2u32.to_be_bytes().to_vec();
+            d.extend(z.clone());
+            cs.push(RawChunk::new(b"fdAT", d));
+        } else {
+            cs.push(RawChunk::new(b"IDAT", z.clone()));
+        }
+        cs.push(RawChunk::new(b"IEND", vec![]));
+        files.push(corpus::TestFile { bytes: serialize(&cs), source: "fail-transform-no-palette".into(), model_domain: false });
+        cfgs.push(Config { flags: *r.pick(&[1u8, 5, 4, 3]), ..Config::default() });
+    }
     let alphabet = [Op::NextFrame(0), Op::NextRow, Op::ReadRow, Op::NextFrameInfo, Op::Finish];
     let conts = all_sequences(&alphabet, ctx.n(3, 4));
     let prefixes: Vec<Vec<Op>> = vec![
@@ -745,7 +819,7 @@ pub fn run_c18(ctx: &mut Ctx) {
                         if fatal && !good {
                             // class = which error it was (text up to the first digit or colon) and which call then succeeded
                             let et = t.err_texts.get(ti).cloned().unwrap_or_default();
-                            let slug: String = et.chars().take_while(|c| !c.is_ascii_digit() && *c != ':' && *c != '(').collect::<String>().trim().to_lowercase().replace(' ', "-");
+                            let slug: String = et.chars().take_while(|c| !c.is_ascii_digit() && *c != ':' && *c != '(' && *c != ';').collect::<String>().trim().to_lowercase().replace(' ', "-");
                             let slug: String = slug.chars().take(48).collect();
                             let mut opname = match ops.get(j) { Some(Op::NextFrame(_)) => "next_frame", Some(Op::NextRow) => "next_row", Some(Op::ReadRow) => "read_row", Some(Op::NextFrameInfo) => "next_frame_info", Some(Op::Finish) => "finish", _ => "other" };
                             if tok.starts_with("frame(") {
@@ -951,7 +1025,7 @@ fn stream_with(dec: &mut png::StreamingDecoder, file: &[u8]) -> String {
 // C05
 
 pub fn run_c05(ctx: &mut Ctx) {
-    ctx.rep.rule = "valid reference-built PNG/APNG files (interlaced, multi-IDAT, compressed, animated with sub-frames) x EVERY truncation point 0..len (small files) x growth schedules {+1 byte, +random, jump to full, to just before/after a chunk boundary} \
+    ctx.rep.rule = "valid reference-built PNG/APNG files (interlaced, multi-IDAT, compressed, animated with sub-frames) x EVERY truncation point 0..len (small files) x growth schedules {+1 byte, +random, jump to full, to just before/after a chunk boundary; +64 / +997 bytes inside an ancillary chunk of 48..100 KiB under limits {default, 1 MiB, 300 KiB}} \
         x retried call in {read_header_info, next_frame, next_row, read_row, next_frame_info, finish}: the call is repeated after every growth until it stops reporting end-of-input; oracle: every intermediate result is UnexpectedEof \
         (never a format error, never a success for an incomplete frame) and the sequence of non-EOF results equals the one-shot decode; traces vs the Lean Reader model; distinct = hash(file, cut, schedule, call)".into();
     let mut rng = ctx.rng.fork(1);
@@ -1014,6 +1088,54 @@ pub fn run_c05(ctx: &mut Ctx) {
         }
     }
     model_batch(ctx, &runs, &traces, "c05");
+    // a large ancillary chunk that arrives in many small pieces while a resumable call is retried: what the retries cost
+    // (Limits, work) must not depend on how often the call was resumed (seeded change C05_6: the chunk buffer was charged
+    // once per resumed call)
+    {
+        let small = small_valid_files(&mut rng, 2);
+        for (fi, f) in small.iter().enumerate().take(2) {
+            for (size, before_idat) in [(48 * 1024usize, false), (100 * 1024, true), (70 * 1024, false)] {
+                let mut body = b"Comment\0".to_vec();
+                body.extend((0..size).map(|i| b'a' + (i % 26) as u8));
+                let big = RawChunk::new(b"tEXt", body).bytes();
+                let at = if before_idat { f.bytes.windows(4).position(|w| w == b"IDAT").map(|p| p - 4) } else { f.bytes.windows(4).rposition(|w| w == b"IEND").map(|p| p - 4) };
+                let at = match at { Some(a) => a, None => continue };
+                let mut file = f.bytes[..at].to_vec();
+                file.extend_from_slice(&big);
+                file.extend_from_slice(&f.bytes[at..]);
+                let n = file.len();
+                let bounds = crate::props::c04::field_offsets(&file);
+                let script = vec![Op::ReadHeader, Op::ReadInfo, Op::NextFrame(0), Op::Finish];
+                for limit in [None, Some(1usize << 20), Some(300 * 1024)] {
+                    let cfg = Config { limit, ..Config::default() };
+                    let oneshot = rops::run_ops(&file, n, &script, &cfg);
+                    for sched in [3usize, 4] {
+                        for cut0 in [at, at + 9, at + 40_000] {
+                            ctx.rep.eval(true, fnv64(&file) ^ ((cut0 as u64) << 20) ^ ((sched as u64) << 8) ^ (limit.unwrap_or(0) as u64) ^ fi as u64);
+                            ctx.rep.count("growth", ["", "", "", "+64 inside a big chunk", "+997 inside a big chunk"][sched]);
+                            let (ops, ok) = run_with_retries(&file, cut0, &script, sched, &bounds, &mut rng, &cfg);
+                            let t = rops::run_ops(&file, cut0, &ops, &cfg);
+                            if t.panicked {
+                                ctx.rep.violation("oracle", "panic", &format!("panic: {}", t.tokens.last().cloned().unwrap_or_default()), case(&file, cut0, &ops, &cfg));
+                                continue;
+                            }
+                            if let Err(why) = ok {
+                                ctx.rep.violation("oracle", &format!("truncation/{}", why.0), &format!("big chunk of {} bytes, truncated at {} of {}, limit {:?}: {}", size, cut0, n, limit, why.1), case(&file, cut0, &ops, &cfg));
+                                continue;
+                            }
+                            let got: Vec<&String> = t.tokens.iter().zip(&ops).filter(|(tok, op)| !matches!(op, Op::Grow(_)) && *tok != "err(eof)").map(|(tok, _)| tok).collect();
+                            let want: Vec<&String> = oneshot.tokens.iter().collect();
+                            if got != want {
+                                let at = got.iter().zip(&want).position(|(a, b)| a != b).unwrap_or(got.len().min(want.len()));
+                                ctx.rep.violation("oracle", "resumed-differs", &format!("big chunk of {} bytes, limit {:?}, truncated at {} and resumed in steps of {}: result {} is `{}`, one-shot gives `{}`", size, limit, cut0, if sched == 3 { 64 } else { 997 }, at,
+                                    got.get(at).map(|s| s.as_str()).unwrap_or("(missing)"), want.get(at).map(|s| s.as_str()).unwrap_or("(missing)")), case(&file, cut0, &ops, &cfg));
+                            }
+                        }
+                    }
+                }
+            }
+        }
+    }
 }
 
 /// Runs the script over a prefix of `visible0` bytes, retrying each call after growing the input whenever it
@@ -1031,6 +1153,9 @@ fn run_with_retries(file: &[u8], visible0: usize, script: &[Op], sched: usize, b
     let vis = rd.visible.clone();
     vis.store(visible, Ordering::SeqCst);
     let mut dec = Some(png::Decoder::new_with_options(rd, decode_options(&cfg.opts)));
+    if let (Some(d), Some(l)) = (dec.as_mut(), cfg.limit) {
+        d.set_limits(png::Limits { bytes: l });
+    }
     let mut reader: Option<png::Reader<PieceReader>> = None;
     let mut buf: Vec<u8> = vec![];
     // `read_info(self)` consumes the Decoder, so it cannot be retried: give it the bytes up to the first data chunk's type field
@@ -1078,6 +1203,8 @@ fn run_with_retries(file: &[u8], visible0: usize, script: &[Op], sched: usize, b
                         let step = match sched {
                             0 => 1,
                             1 => rng.usize(1, 40),
+                            3 => 64,
+                            4 => 997,
                             _ => { let nb = bounds.iter().copied().filter(|&b| b > visible).min().unwrap_or(n); (nb - visible).max(1) }
                         };
                         let step = step.min(n - visible);
@@ -1200,6 +1327,108 @@ pub fn run_c02(ctx: &mut Ctx) {
     }
     model_batch(ctx, &runs, &traces, "c02");
     directed_probes(ctx);
+    systematic_families(ctx);
+}
+
+/// small grammar products in which every factor is enumerated (what the random soups reach only by luck):
+///  (a) indexed images x PLTE length classes (below / at / above 256 entries, not a multiple of 3) x tRNS length classes
+///      (absent, 0, below / at / above 256, above the palette) x transformation sets x frame and row calls;
+///  (b) animation control present or not x frame control before IDAT or not x the IDAT run split by another chunk or not x
+///      what follows (fcTL + fdAT, fdAT without fcTL, nothing) x ALL call sequences up to length 3
+fn systematic_families(ctx: &mut Ctx) {
+    let mut rng = ctx.rng.fork(0x5f5);
+    let run = |ctx: &mut Ctx, name: &str, file: &[u8], ops: &[Op], cfg: &Config, runs: &mut Vec<(Vec<u8>, usize, Vec<Op>, Config, bool)>, traces: &mut Vec<Trace>, sample: bool| {
+        let t = rops::run_ops(file, file.len(), ops, cfg);
+        ctx.rep.eval(true, fnv64(file) ^ fnv64(rops::ops_string(ops).as_bytes()) ^ ((cfg.flags as u64) << 56));
+        ctx.rep.count("systematic family", name);
+        if t.panicked {
+            let site = t.tokens.last().cloned().unwrap_or_default();
+            ctx.rep.violation("oracle", &format!("panic/{}", panic_key(&site)), &format!("family {}: [{}] flags {}: {}", name, rops::ops_string(ops), cfg.flags, site), case(file, file.len(), ops, cfg));
+        }
+        if sample {
+            runs.push((file.to_vec(), file.len(), ops.to_vec(), cfg.clone(), false));
+            traces.push(t);
+        }
+    };
+    let mut runs = vec![];
+    let mut traces = vec![];
+    let mut k = 0usize;
+    // (a)
+    for depth in [1u8, 2, 4, 8] {
+        let w = 5u32;
+        let img = Img::random(&mut rng, 3, depth, w, 2);
+        let (raw, _) = scanlines(&img, false, &Filters::Uniform(0), &mut rng);
+        let z = zlib_stream(&raw, &Deflater::Stored(100));
+        for plte in [0usize, 3, 6, 7, 765, 768, 769, 770, 771, 800, 1000] {
+            for trns in [None, Some(0usize), Some(1), Some(2), Some(255), Some(256), Some(257), Some(258), Some(300), Some(1001)] {
+                let mut cs = vec![ihdr(w, 2, depth, 3, 0), RawChunk::new(b"PLTE", rng.bytes(plte))];
+                if let Some(t) = trns {
+                    cs.push(RawChunk::new(b"tRNS", rng.bytes(t)));
+                }
+                cs.push(RawChunk::new(b"IDAT", z.clone()));
+                cs.push(RawChunk::new(b"IEND", vec![]));
+                let file = serialize(&cs);
+                for flags in [0u8, 1, 4, 5, 3] {
+                    for ops in [vec![Op::ReadInfo, Op::NextFrame(0)], vec![Op::ReadInfo, Op::NextRow, Op::ReadRow, Op::Finish]] {
+                        k += 1;
+                        let cfg = Config { flags, ..Config::default() };
+                        run(ctx, "palette-x-trns-lengths", &file, &ops, &cfg, &mut runs, &mut traces, k % 97 == 0);
+                    }
+                }
+            }
+        }
+    }
+    // (b)
+    let z = zlib_stream(&[0, 1, 2, 3, 0, 4, 5, 6], &Deflater::Stored(100));
+    let (z1, z2) = z.split_at(z.len() / 2);
+    let fc = |seq: u32| Fctl { seq, w: 3, h: 2, x: 0, y: 0, delay_num: 1, delay_den: 1, dispose: 0, blend: 0 }.chunk();
+    let fd = |seq: u32| { let mut d = seq.to_be_bytes().to_vec(); d.extend(z.clone()); RawChunk::new(b"fdAT", d) };
+    let alphabet = [Op::NextFrame(0), Op::NextRow, Op::ReadRow, Op::NextFrameInfo, Op::Finish];
+    let seqs = all_sequences(&alphabet, 3);
+    for with_actl in [false, true] {
+        for with_fctl0 in [false, true] {
+            for splitter in [None, Some(RawChunk::new(b"tEXt", b"k\0v".to_vec())), Some(RawChunk::new(b"prVt", vec![1, 2, 3])), Some(RawChunk::new(b"gAMA", vec![0, 1, 2, 3]))] {
+                for tail in 0..6u8 {
+                    // tails 3..5: the same three endings, but each IDAT run carries a COMPLETE zlib stream of the image (a
+                    // restarted run that would decode if it were accepted) and the animation declares one frame
+                    let (tail, whole_runs) = (tail % 3, tail >= 3);
+                    if whole_runs && splitter.is_none() {
+                        continue;
+                    }
+                    let mut cs = vec![ihdr(3, 2, 8, 0, 0)];
+                    if with_actl {
+                        cs.push(actl(if whole_runs { 1 } else { 2 }, 0));
+                    }
+                    let mut seq = 0u32;
+                    if with_fctl0 {
+                        cs.push(fc(seq));
+                        seq += 1;
+                    }
+                    match &splitter {
+                        None => cs.push(RawChunk::new(b"IDAT", z.clone())),
+                        Some(c) => {
+                            cs.push(RawChunk::new(b"IDAT", if whole_runs { z.clone() } else { z1.to_vec() }));
+                            cs.push(c.clone());
+                            cs.push(RawChunk::new(b"IDAT", if whole_runs { z.clone() } else { z2.to_vec() }));
+                        }
+                    }
+                    match tail {
+                        0 => { cs.push(fc(seq)); cs.push(fd(seq + 1)); }
+                        1 => { cs.push(fd(seq)); }
+                        _ => {}
+                    }
+                    cs.push(RawChunk::new(b"IEND", vec![]));
+                    let file = serialize(&cs);
+                    for s in &seqs {
+                        k += 1;
+                        let cfg = Config { flags: if k % 5 == 0 { 1 } else { 0 }, ..Config::default() };
+                        run(ctx, "animation-control-x-idat-split", &file, &with_ri(s), &cfg, &mut runs, &mut traces, k % 211 == 0);
+                    }
+                }
+            }
+        }
+    }
+    model_batch(ctx, &runs, &traces, "family");
 }
 
 /// grammar-level chunk soups: random chunk sequences with valid framing and CRCs
